@@ -7,9 +7,7 @@ from .C03 import rows_of
 ID = 'C04'
 TARGETS = ['theories/Properties/C04.vo']
 THEOREMS = core.theorems_of(ID)
-LEVEL = ('the expected game is game_of r: a direct fold over the frame history (ids in file order, one row per occurrence, presence bit = character had events, '
-         'rows = that occurrence\'s payloads, items via offsets); reader model tied to the code by differential runs; the history-mirroring oracle is '
-         'evaluated on the real reader, including exhaustive presence patterns on small games')
+LEVEL = ("proved (Properties/C04.v): for EVERY well-formed replay in each framing regime the parsed frames are frames_of(history), whose columns are written out directly from the event history: one row per frame occurrence in file order (rolled-back ids once per occurrence), slots = occupied leaders/followers in port order, slot k's pre/post/validity columns = column k of the history (payloads where the character had events, null row + false bit where not), start/end one entry per row, row i's items = rows [off_i, off_i+1) of the flat item column = the occurrence's item events in order, every column exactly one entry per row; reader model tied to the code by differential runs; the history-mirroring oracle is evaluated on the real reader, including exhaustive presence patterns on small games")
 
 
 def check_history(r, d, corr, cid, hexdata):
